@@ -456,6 +456,29 @@ def true_extents(case):
     return abs(v[0] / 2 * c) + abs(v[1] / 2 * s), abs(v[0] / 2 * s) + abs(v[1] / 2 * c)
 
 
+def ellipse_degenerate(case, aper=None):
+    """Label of the degenerate alignment class of an 'exact' elliptical mask, or None.  In these classes the
+    compiled overlap_area_triangle_unit_circle case analysis (1e-10 snapping, strict delta > 0 tests) is known to
+    return wrong or NaN areas (fixes/C01-known.json): (i) a pixel-grid line tangent to the outer or inner
+    ellipse, (ii) theta a non-zero multiple of pi/4 (float cos/sin noise of ~1e-16 on exactly aligned vertices)."""
+    if case['fam'] not in ('ellipse', 'eannulus') or case['method'] != 'exact':
+        return None
+    outer, inner = shapes_of(case, aper)
+    px, py = case['px'], case['py']
+    for sh in (outer, inner):
+        if sh is None:
+            continue
+        a, b, c, s = sh[1]
+        ex, ey = math.hypot(a * c, b * s), math.hypot(a * s, b * c)
+        if any(abs(v + 0.5 - round(v + 0.5)) < 1e-9 * max(1.0, abs(v)) for v in (px - ex, px + ex, py - ey, py + ey)):
+            return 'pixel-edge-tangent'
+    th = float(case['params'].get('theta', 0.0))
+    k = th / (math.pi / 4)
+    if th != 0.0 and abs(k - round(k)) < 1e-9:
+        return 'theta-multiple-of-pi/4'
+    return None
+
+
 def bbox_oracle(case, bb):
     """([(name, got, want)], n_skipped): the box must be the smallest integer pixel box containing the shape.
     Lattice cases (dyadic centre/sizes, theta = 0) are decided exactly incl. extents ending exactly on a pixel
@@ -611,6 +634,10 @@ def gen_mask_case(rng, tier):
     ext = max(sizes) if fam not in ('rect', 'rannulus') else 0.5 * math.hypot(max(sizes), max(sizes))
     area_est = (2 * ext + 2) ** 2 * (2 if fam.endswith('annulus') else 1) * (1 if exact_arith else 2)
     budget = 4000 if tier == 'quick' else 8000
+    if fam in ('ellipse', 'eannulus') and not exact_arith:
+        # rotated-ellipse tests on arbitrary doubles cost ~10 ms per sub-pixel centre under vm_compute
+        # (1000-bit rationals): keep those cases small, the lattice ones large
+        budget //= 4
     if method == 'exact' and fam in ('rect', 'rannulus') and area_est * 1024 > 12 * budget:
         method = 'subpixel'
     if method == 'center' and area_est > budget:
@@ -622,6 +649,28 @@ def gen_mask_case(rng, tier):
         sub = rng.choice([1, 5])
     return dict(fam=fam, params=params, px=px, py=py, method=method, sub=sub, lat=lat, pos_kind=pos_kind,
                 exact_arith=exact_arith)
+
+
+def gen_degenerate_ellipse(rng):
+    """exactly aligned elliptical apertures, 'exact' method: grid lines tangent to the ellipse, pixel corners on
+    it, theta an exact multiple of pi/4 (the measure-zero cases named in the property)"""
+    th = rng.choice([0.0, math.pi / 2, math.pi, -math.pi, math.pi / 4, -math.pi / 4, 3 * math.pi / 4])
+    kind = rng.choice(['tangent', 'tangent', 'aligned', 'thin'])
+    if kind == 'tangent':
+        a = rng.choice([0.5, 1.0, 1.5, 2.0])
+        b = rng.choice([a, a, 0.5, 1.0, 2.0])
+        px, py = rng.randint(-2, 12) + rng.choice([0.0, 0.5]), rng.randint(-2, 12) + rng.choice([0.0, 0.5])
+    elif kind == 'aligned':
+        a, b = rng.choice([(1.0, 2.0), (2.0, 1.0), (0.5, 1.5), (3.0, 2.0)])
+        px, py = float(rng.randint(-2, 12)), rng.randint(-2, 12) + rng.choice([0.0, 0.5])
+    else:
+        a, b = rng.choice([1.5, 3.0]), rng.choice([0.3, 0.2])
+        px, py = rng.randint(-2, 12) + 0.25, rng.randint(-2, 12) + 0.125
+    if rng.random() < 0.3:
+        return dict(fam='eannulus', params=dict(a_in=a / 2, a_out=a, b_out=b, theta=th), px=px, py=py, method='exact',
+                    sub=1, lat=False, pos_kind='degenerate', exact_arith=False)
+    return dict(fam='ellipse', params=dict(a=a, b=b, theta=th), px=px, py=py, method='exact', sub=1, lat=False,
+                pos_kind='degenerate', exact_arith=False)
 
 
 def gen_huge_case(rng):
@@ -746,6 +795,11 @@ def direct_checks(ctx, case, aper, data, bb, source):
         if not err <= 63 * 4 * nrect / 1024 + 1e-9 or not abs(tot - area) <= 0.25 * nrect * (4 + data.size ** 0.5 * 8):
             out.append((f'to_mask:{fam}:exact-weights', f'rectangle weight differs from the covered fraction by {err}',
                         rep))
+    if out and use_exact:
+        label = ellipse_degenerate(case, aper)
+        if label:   # one known class of inputs, one signature (see fixes/C01-known.json)
+            out = [(f'elliptical-exact:degenerate:{label}', "'exact' elliptical weights wrong in a degenerate alignment: "
+                    + '; '.join(w for _, w, _ in out), rep)]
     bad, skipped = bbox_oracle(case, bb)
     if skipped:
         ctx.stat('excluded', 'bbox-edge-tie-undecided-in-floats', skipped)
@@ -865,7 +919,7 @@ def history_compare(aper, method, sub):
     m, mf = aper.to_mask(method=method, subpixels=sub), fr.to_mask(method=method, subpixels=sub)
     if aper.bbox != fr.bbox or m.bbox != mf.bbox:
         return f'bbox {aper.bbox} / mask.bbox {m.bbox} but a fresh aperture with the same parameters has {fr.bbox}', m
-    if m.data.shape != mf.data.shape or not np.array_equal(m.data, mf.data):
+    if m.data.shape != mf.data.shape or not np.array_equal(m.data, mf.data, equal_nan=True):
         return ('to_mask data differs from a fresh aperture with the same parameters (sum '
                 f'{float(m.data.sum())!r} vs {float(mf.data.sum())!r})'), m
     if not aper.area == fr.area:
@@ -931,7 +985,7 @@ def run(ctx):
         ctx.broken_obligation('pyx-untranslatable', {'error': repr(e)})
         ctx.stat('text', 'untranslatable', 1)
     # ---------------- masks ----------------
-    n = 160 if quick else 750
+    n = 220 if quick else 750
     coq_cases, descr = [], []
     text_differs = 0
 
@@ -1028,6 +1082,20 @@ def run(ctx):
                 ctx.violation(f'to_mask:{case["fam"]}:center-fraction', f'{nbad} pixels of a large center mask differ '
                               'from "pixel centre strictly inside"',
                               mask_rep(case, 'compiled'))
+    # ---------------- exactly aligned ellipses, 'exact' method ----------------
+    for k in range(16 if quick else 120):
+        case = gen_degenerate_ellipse(rng)
+        ctx.stat('family', case['fam'] + '-degenerate')
+        ctx.count_case(case_key(case), True)
+        try:
+            aper = make_aperture(case)
+            m = aper.to_mask(method='exact')
+        except Exception as e:   # noqa: BLE001
+            ctx.violation(f'to_mask:{case["fam"]}:raises', f'to_mask raises {type(e).__name__}: {e}',
+                          mask_rep(case, 'compiled'))
+            continue
+        bb = (m.bbox.ixmin, m.bbox.ixmax, m.bbox.iymin, m.bbox.iymax)
+        report(direct_checks(ctx, case, aper, m.data, bb, 'compiled'))
     # ---------------- integer-shift covariance of masks (from_float_shift) ----------------
     for k in range(40 if quick else 200):
         case = gen_mask_case(rng, 'quick')
@@ -1097,7 +1165,7 @@ def run(ctx):
             ctx.violation(f'history:{fam}:raises', f'{type(e).__name__}: {e}', rep)
     # ---------------- bounding-box algebra, from_float and slices ----------------
     from photutils.aperture import BoundingBox
-    nb = 150 if quick else 2000
+    nb = 200 if quick else 2000
     box_descr = []
     for k in range(nb):
         ny, nx = rng.randint(1, 10), rng.randint(1, 10)
